@@ -8,7 +8,7 @@
    Strings are lists of code points; byte streams are lists of Z. *)
 From Coq Require Import ZArith List Bool String Ascii.
 Import ListNotations.
-From Urwid Require Import PyBase escape_table_gen.
+From Urwid Require Import PyBase PyList escape_table_gen str_loops_gen.
 Open Scope Z_scope.
 
 (* ---------- strings ---------- *)
@@ -316,45 +316,36 @@ Definition trie_get_in (root : trie) (keys : list Z) (more : bool) : outcome (op
 Definition trie_get := trie_get_in input_trie.
 
 (* ---------- str_util.within_double_byte ---------- *)
-Definition byte_at (text : list Z) (i : Z) : Z := match nthz text i with Some v => v | None => 0 end.
-
-(* while i >= line_start: if text[i] < 0x80: break; i -= 1 *)
-Fixpoint wdb_scan (fuel : nat) (text : list Z) (line_start i : Z) : Z :=
-  match fuel with
-  | O => i
-  | S f => if line_start <=? i then (if byte_at text i <? 128 then i else wdb_scan f text line_start (i - 1)) else i
-  end.
-
-(* the recursive call is made only on a byte >= 0x81, which cannot recurse again: depth 2 *)
-Fixpoint wdb_rec (depth : nat) (text : list Z) (line_start pos : Z) : Z :=
-  match depth with
-  | O => 0
-  | S d =>
-      let v := byte_at text pos in
-      if (64 <=? v) && (v <? 127) then
-        if pos =? line_start then 0
-        else if (129 <=? byte_at text (pos - 1)) && (wdb_rec d text line_start (pos - 1) =? 1) then 2
-        else 0
-      else if v <? 128 then 0
-      else
-        let i := wdb_scan (Z.to_nat (pos - line_start + 1)) text line_start (pos - 1) in
-        if Z.land (pos - i) 1 =? 0 then 2 else 1
-  end.
-Definition within_double_byte (text : list Z) (line_start pos : Z) : Z := wdb_rec 2 text line_start pos.
+(* NOT hand-written: [within_double_byte_gen] is the py2v translation of str_util.within_double_byte
+   (Gen/str_loops_gen.v, regenerated from the source on every run; shared with C11).  The first
+   argument is the recursion fuel: the function recurses at most once (on a byte >= 0x81). *)
+Definition within_double_byte (text : list Z) (line_start pos : Z) : result Z :=
+  within_double_byte_gen 3 text line_start pos.
 
 (* ---------- process_keyqueue ---------- *)
 Definition angle (code : Z) : event := Key (60 :: z_to_dec code ++ [62]).   (* f"<{code:d}>" *)
 
 Definition res := (list event * list Z)%type.
 
-(* the double-byte block; None = fall through to the following statements *)
+(* the double-byte block; None = fall through to the following statements.
+   em == "wide" and code < 256 and within_double_byte(code.to_bytes(1, "little"), 0, 0);
+   if codes[1:] and codes[1] < 256: ... if within_double_byte(bytes(codes[:2]), 0, 1): return [db], codes[2:] *)
 Definition wide_step (em : encoding) (code : Z) (tl : list Z) (more : bool) : option (outcome res) :=
-  if enc_is_wide em && (code <? 256) && negb (within_double_byte [code] 0 0 =? 0) then
-    match tl with
-    | [] => if more then Some OMore else None
-    | k :: r =>
-        if (k <? 256) && negb (within_double_byte [code; k] 0 1 =? 0)
-        then Some (OOk ([Key [code; k]], r))
+  if enc_is_wide em && (code <? 256) then
+    match within_double_byte [code] 0 0 with
+    | Err e => Some (OErr e)
+    | Ok r1 =>
+        if negb (r1 =? 0) then
+          match tl with
+          | [] => if more then Some OMore else None
+          | k :: r =>
+              if k <? 256 then
+                match within_double_byte [code; k] 0 1 with
+                | Err e => Some (OErr e)
+                | Ok r2 => if negb (r2 =? 0) then Some (OOk ([Key [code; k]], r)) else None
+                end
+              else None
+          end
         else None
     end
   else None.
